@@ -1507,11 +1507,13 @@ impl<C: BgpConfig + Send> Session<C> {
                 //    Section 6.8.  If this connection is to be dropped due to
                 //    connection collision, the local system:
 
-                //TODO implement the collision resolution
-                todo!();
-                       
+                // There is a single connection per Session, so a second OPEN
+                // on it can only lose: this is the 'dropped' path.
+
                 //- sends a NOTIFICATION with a Cease,
-                //self.disconnect(DisconnectReason::Collision).await;
+                self.disconnect(DisconnectReason::FsmViolation(Some(
+                    CeaseSubcode::ConnectionCollisionResolution.into()
+                )));
 
                 //- sets the ConnectRetryTimer to zero,
                 self.connect_retry_timer.stop_and_reset();
@@ -1682,11 +1684,10 @@ impl<C: BgpConfig + Send> Session<C> {
                 // TODO implement collision detection.
                 todo!()
             }
-            (S::Established, E::BgpOpen(_)) => {
-                todo!()
-                // once CollisionDetectEstablishedState is implemented, things
-                // need to happen here
-            }
+            // (S::Established, E::BgpOpen(_)): once
+            // CollisionDetectEstablishedState is implemented, things need to
+            // happen here; until then an OPEN in Established is an FSM error,
+            // see below.
             // optional:
             //(S::Established, E::OpenCollisionDump) => { todo!() }
             (S::Established,
@@ -1765,6 +1766,7 @@ impl<C: BgpConfig + Send> Session<C> {
                 E::ConnectRetryTimerExpires |
                 E::DelayOpenTimerExpires |
                 //E::IdleHoldTimerExpires |
+                E::BgpOpen(_) |
                 E::BgpOpenWithDelayOpenTimerRunning(_) |
                 E::BgpHeaderErr |
                 E::BgpOpenMsgErr
